@@ -37,6 +37,16 @@ def duplicate_clauses(ctx):
             ok = fixed and isinstance(val, ast.Name) and val.id == row
     run.check(ok, 'DUP', saver.where, saver.qualname, "insert_generator((('{:08x}'.format(idx), row) for idx, row in enumerate(resource)))",
               'the saver does not store every row under a fixed-width key of its position (rows lost, reordered or overwritten)')
+    # LF9: KVFile.insert_generator yields each (key, value) pair *before* it serialises the value.  Rows handed downstream from it
+    # can therefore be edited in place by a later step before they are stored, and the copy is no longer the resource as it was
+    # at the position of duplicate.
+    if ig:
+        gen_names = {pseudo(n.targets[0]) for n in own_nodes(saver.node) if isinstance(n, ast.Assign) and n.value is ig[0]}
+        late = [n for n in own_nodes(saver.node) if isinstance(n, ast.For) and (pseudo(n.iter) in gen_names or n.iter is ig[0])
+                and any(isinstance(y, ast.Yield) for y in ast.walk(n))]
+        run.check(not late, 'DUP', saver.where, saver.qualname, 'rows yielded from insert_generator before they are serialised',
+                  'the saver hands each row downstream before it is serialised into the store (insert_generator yields first): a '
+                  'later step that edits rows of the original in place also changes the copy')
     for f, what in ((saver, 'saver'), (loader, 'loader')):
         loops = [n for n in own_nodes(f.node) if isinstance(n, ast.For)]
         ok = len(loops) == 1 and isinstance(loops[0].target, ast.Tuple) and len(loops[0].target.elts) == 2
@@ -98,15 +108,33 @@ def duplicate_clauses(ctx):
                           if isinstance(n, ast.Assign)),
                   'DUP', where(repo, lp), tr.qualname, stream.fmt_atoms(val) + ': original first',
                   'the original descriptor is not emitted first and untouched')
-        copies = [n for n in nodes if isinstance(n, ast.Assign) and isinstance(n.value, ast.Call)
-                  and res.external_name(n.value) == 'copy.deepcopy']
-        writes = [n for n in nodes if isinstance(n, ast.Assign) and isinstance(n.targets[0], ast.Subscript)]
-        if writes:
-            keys = sorted(k.targets[0].slice.value for k in writes if isinstance(k.targets[0].slice, ast.Constant))
-            run.check(len(copies) == 1 and nodes.index(copies[0]) < nodes.index(writes[0]) and keys == ['name', 'path'],
-                      'DUP', where(repo, writes[0]), tr.qualname, stream.fmt_atoms(val) + ': copy edits ' + str(keys),
-                      'the copy descriptor is not a deep copy with exactly name and path replaced (the original would be '
-                      'altered, or the copy differs from it)')
+        if val.get(('EQ', 'source_')) is not True and not any(a[0] == 'EQ' and v for a, v in val.items()):
+            continue
+        # the copy: what is emitted (yielded / deferred) after the original on the matching path
+        emitted = [n for n in nodes if isinstance(n, ast.Yield) or
+                   (isinstance(n, ast.Call) and isinstance(n.func, ast.Attribute) and n.func.attr == 'append')]
+        second = emitted[1] if len(emitted) > 1 else None
+        if second is None:
+            run.fail('DUP', where(repo, lp), tr.qualname, stream.fmt_atoms(val) + ': copy emitted', 'no copy descriptor is emitted')
+            continue
+        cexpr = second.value if isinstance(second, ast.Yield) else second.args[0]
+        assigns = [n for n in nodes if isinstance(n, ast.Assign) and nodes.index(n) > nodes.index(first_yield)
+                   and nodes.index(n) < nodes.index(second)]
+        deep = [n for n in assigns if any(isinstance(c, ast.Call) and res.external_name(c) == 'copy.deepcopy' and c.args
+                                          and var in names_in(c.args[0]) for c in ast.walk(n.value))]
+        changed = set()
+        for n in assigns:
+            t = n.targets[0]
+            if isinstance(t, ast.Subscript) and isinstance(t.slice, ast.Constant):
+                changed.add(t.slice.value)
+            for c in ast.walk(n.value):
+                if isinstance(c, ast.Call) and u(c.func) == 'dict':
+                    changed |= {k.arg for k in c.keywords if k.arg}
+        run.check(bool(deep) and changed == {'name', 'path'} and pseudo(cexpr) is not None, 'DUP', where(repo, second), tr.qualname,
+                  stream.fmt_atoms(val) + ': copy = deepcopy(original) with ' + str(sorted(changed)) + ' replaced',
+                  'the copy descriptor is not a deep copy of the original with exactly name and path replaced: a shallow copy '
+                  'shares schema / field objects with the original, so a later step that edits the copy\'s schema silently edits '
+                  'the original\'s too (or the copy differs from the original in more than name and path)')
 
 
 def concatenate_clauses(ctx):
@@ -228,7 +256,7 @@ def check(ctx):
     from rules import independence
     independence.r28_functions(ctx, [('dataflows.processors.concatenate:concatenator', {}),
                                      ('dataflows.processors.duplicate:saver', {}), ('dataflows.processors.duplicate:loader', {})])
-    run.trusted += ['LF5 KVFile.insert_generator yields what it stores; items() iterates in ascending key order; equal keys overwrite',
+    run.trusted += ['LF5 KVFile: items() iterates in ascending key order; equal keys overwrite', 'LF9 KVFile.insert_generator yields each pair before serialising it (read in the installed kvfile/base.py)',
                     'itertools.chain / islice']
     run.not_decided += ["concatenate's run detection beyond the structural typestate checked here; field mapping on values",
                         'that the replayed copy equals the original (KVFile serialisation of values)']
